@@ -14,7 +14,7 @@ import (
 // verifyFunction generates all obligations for fn against its contract.
 func (eng *Engine) verifyFunction(fn *ssa.Function, key string, c *Contract) (res verifyResult) {
 	ex := eng.newExecutor(fn, key, c, nil)
-	ex.safety = !c.NoSafety
+	ex.safety = !c.NoSafety && !c.AtcallOnly
 	if al := eng.renamedLocals(key, fn); al != nil {
 		ex.aliases = al
 		var names []string
@@ -100,6 +100,15 @@ func (eng *Engine) verifyFunction(fn *ssa.Function, key string, c *Contract) (re
 		ex.runBody(st)
 	}
 	res.obls = ex.obls
+	if c.AtcallOnly {
+		var kept []*Obligation
+		for _, o := range ex.obls {
+			if o.Kind == "atcall" {
+				kept = append(kept, o)
+			}
+		}
+		res.obls = kept
+	}
 	res.abstracted = ex.abstracted
 	for k := range ex.inlined {
 		res.inlined = append(res.inlined, k)
